@@ -1,7 +1,7 @@
 """C07 -- Strand: one job at a time, in submission order, none lost.  Tier A over the real strand.cpp (MakeStrand)."""
 import core
 
-KMAX = {'quick': 8, 'thorough': 12}
+KMAX = {'quick': 12, 'thorough': 16}
 
 
 def plan(tier, seed, ctx):
@@ -23,14 +23,20 @@ def plan(tier, seed, ctx):
             e = 'c07a_%s_k%s' % (nm, 'none' if k < 0 else k)
             main = (core.decls(fns) + 'void c07a_prologue(uint32_t, uint32_t);\n' + core.unit_selector(units)) if first else ''
             first = False
-            main += core.cube_entry(e, 'c07a_prologue', outer, inner, k, 'c07a_epilogue', kmax, pargs)
+            main += core.cube_entry(e, 'c07a_prologue', outer, inner, k, 'c07a_epilogue', kmax, pargs, spurious_nondet=0)
             queries.append({'name': e, 'module': 'c07a', 'main': main, 'unwind': 8, 'timeout': 200,
                             'sample': 'Tier A: %s; the inner unit runs to completion at atomic operation #%s of the outer unit' % (what, 'after the end' if k < 0 else k)})
+        for j in range(0, 4):  # fault dimension: the j-th weak CAS of the run fails spuriously (sequential order outer;inner, and a mid preemption)
+            for k in (-1, 1, 2):
+                e = 'c07a_%s_k%s_spur%d' % (nm, 'none' if k < 0 else k, j)
+                main = core.cube_entry(e, 'c07a_prologue', outer, inner, k, 'c07a_epilogue', kmax + 4, pargs, spurious_at=j, spurious_nondet=0)
+                queries.append({'name': e, 'module': 'c07a', 'main': main, 'unwind': 8, 'timeout': 200,
+                                'sample': 'Tier A + fault: %s; preemption at #%s; weak CAS #%d of the run fails spuriously' % (what, 'end' if k < 0 else k, j)})
     meta = {
         'rule': 'Per pair of units (runner/submitter, submitter/submitter, with the underlying executor accepting or stopped) and per preemption index k one '
                 'query; k=none also proves the covering bound. Oracle: no overlap, per-submitter program order, every job Called xor Dropped exactly once (Dropped '
                 'only when the underlying executor refuses), strand idle and freed when the last reference goes.',
-        'bounds': {'logical_threads': 2, 'jobs': '3-4', 'tier_A_kmax': kmax, 'spurious_weak_cas_failures': 1,
+        'bounds': {'logical_threads': 2, 'jobs': '3-4', 'tier_A_kmax': kmax, 'spurious_weak_cas_failures': 'one per query, at an enumerated position 0..3 (sequential order and preemption indices 1, 2)',
                    'schedules': 'well-nested two-unit schedules; the all-interleavings (CBMC threads) encoding of strand.cpp ran out of 12 GB after 17 min and is not used'},
         'stubs': ['underlying executor = mailbox stub (harness decides when a scheduled batch runs); stopped mode Drops', 'leaf jobs recording overlap/order/counts'],
         'assumptions': ['schedules where three or more parties interleave, or two parties interleave more than one window deep, are outside the claim',
